@@ -318,9 +318,11 @@ def handleClip (inp out : List String) : String :=
 
 /-! #### C04.glue -/
 
-def handleGlue (inp out : List String) : String :=
+def handleGlue (inp0 out : List String) : String :=
+  let (mk, inp) := P.splitMarker inp0
   match inp with
-  | "ring" :: rest =>
+  | "ring" :: rest0 =>
+    let rest := mk ++ rest0
     match P.run pts rest, P.run pts out with
     | some r, some q =>
       let m := ringToShapePath r
@@ -336,7 +338,8 @@ def handleGlue (inp out : List String) : String :=
           (if hasRepeatedClosing [r] then " repeated-closing" else "") ++ (if r.length < 4 then " short" else ""))
         (ptsStr m) (ptsStr q)
     | _, _ => "ERR parse"
-  | "shape" :: rest =>
+  | "shape" :: rest0 =>
+    let rest := mk ++ rest0
     let pout : P Poly := do
       let g ← rawGeometry
       match g with
